@@ -153,6 +153,15 @@ func build() *fixture {
 	nonStr := append(append(append([]val{}, num...), boolv...), append(obj, lst...)...)
 
 	add := func(t argType) { fx.types = append(fx.types, t) }
+	qo.FieldFunc("echo_multi", func(args struct {
+		A *int64
+		B *int64
+		S *string
+	}) bool {
+		sk.calls++
+		sk.last = []interface{}{args.A, args.B, args.S}
+		return true
+	})
 
 	// integers of every width
 	echo[int](qo, sk, "int")
@@ -411,10 +420,63 @@ func run(rp *explore.Report, tier string) {
 		// (An unknown extra argument is silently ignored by thunder; the property does not
 		// speak about unknown arguments, so it is not part of the oracle.)
 	}
+	// several variables in one operation: every combination of {no default, default} x {absent, null, value} for three
+	// variables feeding three arguments of one field, in every declaration order
+	multi := &argType{name: "multi"}
+	type vstate struct {
+		def  bool
+		supp int // 0 absent, 1 null, 2 value
+	}
+	var states []vstate
+	for _, d := range []bool{false, true} {
+		for su := 0; su < 3; su++ {
+			states = append(states, vstate{d, su})
+		}
+	}
+	names := []string{"a", "b", "s"}
+	gqlT := []string{"int64", "int64", "string"}
+	defLit := []string{"11", "22", `"dd"`}
+	defWant := []interface{}{ptrOf(int64(11)), ptrOf(int64(22)), ptrOf("dd")}
+	valJS := []interface{}{float64(5), float64(6), "vv"}
+	valWant := []interface{}{ptrOf(int64(5)), ptrOf(int64(6)), ptrOf("vv")}
+	nilWant := []interface{}{(*int64)(nil), (*int64)(nil), (*string)(nil)}
+	orders := [][]int{{0, 1, 2}, {0, 2, 1}, {1, 0, 2}, {1, 2, 0}, {2, 0, 1}, {2, 1, 0}}
+	for _, ord := range orders {
+		for code := 0; code < len(states)*len(states)*len(states); code++ {
+			st := []vstate{states[code%6], states[code/6%6], states[code/36]}
+			var decls []string
+			vars := map[string]interface{}{}
+			want := make([]interface{}, 3)
+			for _, i := range ord {
+				d := fmt.Sprintf("$%s: %s", names[i], gqlT[i])
+				if st[i].def {
+					d += " = " + defLit[i]
+				}
+				decls = append(decls, d)
+			}
+			for i := range names {
+				switch st[i].supp {
+				case 1:
+					vars[names[i]] = nil
+				case 2:
+					vars[names[i]] = valJS[i]
+				}
+				switch {
+				case st[i].supp == 2:
+					want[i] = valWant[i]
+				case st[i].def:
+					want[i] = defWant[i]
+				default:
+					want[i] = nilWant[i]
+				}
+			}
+			expectValue(multi, "several-variables", fmt.Sprintf("query(%s) { echo_multi(a: $a, b: $b, s: $s) }", strings.Join(decls, ", ")), vars, want)
+		}
+	}
 	rp.AddOutcome(fmt.Sprintf("types=%d", len(fx.types)))
 }
 
 func init() {
 	reg.Register(&reg.Harness{Property: "C18", Name: "c18/arguments", Level: "exploration", Run: run,
-		Rule: "one echo field per argument type (all int/uint widths, named int/string, float32/64, bool, string, enum, []byte, time.Time, text-unmarshaler, pointers, optional-tagged, lists incl. nested and of pointers, nested input objects) x boundary values x transport {literal, variable, default used (absent / null), default ignored}; oracle: the Go value recorded by the resolver equals the value sent, exactly one resolver call; wrong JSON kinds, missing required and unknown arguments are client errors with zero resolver calls; omitted optional arrives as nil/zero"})
+		Rule: "one echo field per argument type (all int/uint widths, named int/string, float32/64, bool, string, enum, []byte, time.Time, text-unmarshaler, pointers, optional-tagged, lists incl. nested and of pointers, nested input objects) x boundary values x transport {literal, variable, default used (absent / null), default ignored}, plus one three-argument field fed by three variables in every combination of {default, none} x {absent, null, value} and every declaration order; oracle: the Go value recorded by the resolver equals the value sent, exactly one resolver call; wrong JSON kinds, missing required and unknown arguments are client errors with zero resolver calls; omitted optional arrives as nil/zero"})
 }
